@@ -80,9 +80,10 @@ P = {
 def main():
     checks = []
     na = []
+    ready = set(open(os.path.join(VERIF, 'tools', 'ready.txt')).read().split())
     for pid in sorted(P):
         engine, ref, technique, text = P[pid]
-        if os.path.exists(os.path.join(VERIF, 'mcv', 'props', pid.lower() + '.py')):
+        if pid in ready and os.path.exists(os.path.join(VERIF, 'mcv', 'props', pid.lower() + '.py')):
             checks.append({
                 'property_id': pid,
                 'quick_cmd': './check %s quick' % pid,
